@@ -124,6 +124,19 @@ func suiteC12(r *Run) {
 				}
 			}
 			names = append(names, "/"+s.name, "/"+s.name+"/", s.name)
+			// near misses that only an unescaping step could turn into a registered name
+			for _, m := range append(append([]string{}, s.unary...), s.streams...) {
+				switch rng.Intn(6) {
+				case 0:
+					names = append(names, "/"+s.name+"/"+pctEscapeAt(m, rng.Intn(len(m))))
+				case 1:
+					names = append(names, "/"+pctEscapeAt(s.name, rng.Intn(len(s.name)))+"/"+m)
+				case 2:
+					names = append(names, "/"+s.name+"%2F"+m, "/"+s.name+"%2f"+m)
+				case 3:
+					names = append(names, "/"+s.name+"/"+m+"%00", "/"+s.name+"/"+m+"?x=1", "/"+s.name+"/"+m+"#f")
+				}
+			}
 		}
 		names = append(names, "", "/", "//", "foo", "/foo", "/nosuch.Svc/Get", "/pkg.Svc/NoSuch", "/ /", "/\x00/\xff")
 		if iter%5 != 0 {
@@ -340,6 +353,11 @@ func suiteC12(r *Run) {
 		}
 	}
 	_ = grpchantesting.MetadataNew
+}
+
+// pctEscapeAt replaces the byte at i by its %XX escape.
+func pctEscapeAt(s string, i int) string {
+	return s[:i] + fmt.Sprintf("%%%02X", s[i]) + s[i+1:]
 }
 
 // wellFormed: "/svc/method" with two plain segments.
